@@ -17,7 +17,9 @@ import (
 //	rollback  -                                                 sync rolls back the own chain head: RemoveHeader(head)
 //	remove    I=[nonce] B=[hash]                                RemoveHeader of a header that failed processing (not on the own chain)
 //	setrb     I=[nonce]                                         SetRollBackNonce
+//	restore                                                   RestoreToGenesis (storage bootstrapper after a failed reload); the own chain is empty again
 //	resetprob / resetfork / forced / check
+//	recv with T=k (k>0: twin B, k<0: twin A) delivers the batch to that twin |k| events later than to the other twin
 const (
 	flagBadTimestamp = 1
 	flagProposed     = 2
@@ -94,8 +96,18 @@ func genC20(r *simkit.Rand, tier string) *simkit.Plan {
 		pBadNotar = r.Float64() * 0.25
 	}
 	pMisc := r.Float64() * 0.25
+	pShift := 0.0
+	if r.Chance(0.6) {
+		pShift = 0.03 + r.Float64()*0.2 // few shifts per run: the twins are compared only while none is outstanding
+	}
+	pRestore := 0.0
+	if r.Chance(0.15) {
+		pRestore = 0.02 + r.Float64()*0.05
+	}
 	hashLen := r.Range(1, 6)
 	snLag := uint64(r.Range(0, 2))
+
+	slowMain := r.Chance(0.35)
 
 	// ---- block tree ----
 	n := r.Range(3, 15)
@@ -121,10 +133,22 @@ func genC20(r *simkit.Rand, tier string) *simkit.Plan {
 				if j > 0 && r.Chance(0.5) {
 					par = levels[lv-1][r.Intn(len(levels[lv-1]))]
 				}
+				if j > 0 && slowMain && len(levels[lv-1]) > 1 && r.Chance(0.7) {
+					par = levels[lv-1][1+r.Intn(len(levels[lv-1])-1)] // the side fork continues on its own
+				}
 				h.parent = par
 				pRound, pEp = hdrs[par].round, hdrs[par].epoch
 			}
 			h.round = pRound + uint64(r.Range(1, 3))
+			if slowMain {
+				// the main chain misses rounds while a side fork was built quickly: its headers end up with rounds
+				// at or below the main chain's previous block (a dead fork once the main chain becomes final)
+				if j == 0 {
+					h.round = pRound + uint64(r.Range(2, 4))
+				} else {
+					h.round = pRound + 1
+				}
+			}
 			if j > 0 && r.Chance(pSameRound) {
 				if sr := hdrs[levels[lv][0]].round; sr > pRound {
 					h.round = sr
@@ -307,6 +331,15 @@ func genC20(r *simkit.Rand, tier string) *simkit.Plan {
 		if !checkEvery && r.Chance(0.5) {
 			emit(simkit.Step{Op: "check"})
 		}
+		if r.Chance(pRestore) {
+			// storage bootstrap gave up: everything goes back to the start header; the node starts again from there
+			emit(simkit.Step{Op: "restore"})
+			own = own[:0]
+			notarUpTo = baseNonce
+			for i := range received {
+				received[i] = false
+			}
+		}
 	}
 
 	for i := 0; i < len(arr); {
@@ -362,6 +395,16 @@ func genC20(r *simkit.Rand, tier string) *simkit.Plan {
 			}
 			if k > 1 {
 				st.I[1] = int64(1 + r.Intn(factorial(k)-1)) // never the identity: twin B sees another order
+			}
+			if r.Chance(pShift) {
+				// cross-batch order: one twin gets this batch 1-5 events later than the other
+				st.T = r.Range(1, 3)
+				if r.Chance(0.5) {
+					st.T = r.Range(4, 30) // long enough to cross the processing of several blocks
+				}
+				if r.Chance(0.5) {
+					st.T = -st.T
+				}
 			}
 			emit(st)
 			a = b
